@@ -48,6 +48,13 @@ def run_one(pid: str, tier: str, seed: int) -> int:
             return 2
         return rc
     except AnalysisError as e:
+        # findings established before the analysis gave up are still findings: a violation outranks "could not analyse"
+        if any(not f.info for f in run.findings):
+            run.extra["analysis_error_after_findings"] = str(e)[:300]
+            rc = finish(run, seed)
+            if rc == 1:
+                print(f"ANALYSIS-ERROR property={pid} (after the findings above) {e}")
+                return 1
         print(f"ANALYSIS-ERROR property={pid} {e}")
         return 2
     except Exception:  # a traceback is never a verdict
